@@ -3,7 +3,7 @@ CONSTANTS
   Alphabet = {"lo", "up", "dg", "us", "st", "sp", "dd", "sl", "dq", "sq", "bt", "bs", "nl", "nu", "d2", "d3", "nd", "no", "ns", "iv", "l4", "u4", "n4", "s4"}
   MaxLen = 2
   MinLen = 0
-  Shapes = {"flat", "multi", "obj", "objmulti", "tags", "tagsmulti", "nested", "nestedmulti"}
+  Shapes = {"flat", "multi", "obj", "objmulti"}
   LimMode = "all"
   Firsts = {"lo", "up", "dg", "us", "st", "sp", "dd", "sl", "dq", "sq", "bt", "bs", "nl", "nu", "d2", "d3", "nd", "no", "ns", "iv", "l4", "u4", "n4", "s4"}
   Sample = FALSE
